@@ -95,17 +95,14 @@ class C19(Spec):
                     "vunsigned, f64toa, f32toa, i64toa/u64toa) and the JIT range checks are modelled by the exact "
                     "specification (Model/Num.lean, Model/NumFmt.lean) and tied by correspondence only",
                     "strconv.ParseFloat/ParseInt/ParseUint/AppendFloat and encoding/json as executable reference"]
-    assumptions = ["fmt_total (17 significant digits always suffice for float64, 9 for float32) is not proved; "
-                   "fmtBits returns none if the search fails, which the sweeps count as model/reference disagreement (0 seen)",
+    assumptions = [
                    "ast.Node.Int64 is a documented cast (converts through float64): judged only on integer literals in range; "
                    "Node.StrictInt64 is the route judged strictly"]
 
     def streams(self, tier, seed):
         if tier == "quick":
-            return [Stream("atof", "c19.atof", 4000, envs=DEC_ENVS),
-                    Stream("bad", "c19.bad", 1200, envs=DEC_ENVS),
-                    Stream("ftoa", "c19.ftoa", 3000, envs=ENC_ENVS),
-                    Stream("itoa", "c19.itoa", 1500, envs=ENC_ENVS)]
+            return [Stream("decode", "c19.dec", 5200, envs=DEC_ENVS),
+                    Stream("encode", "c19.enc", 4500, envs=ENC_ENVS)]
         return [Stream("atof", "c19.atof", 400000, envs=DEC_ENVS),
                 Stream("bad", "c19.bad", 60000, envs=DEC_ENVS),
                 Stream("ftoa", "c19.ftoa", 500000, envs=ENC_ENVS),
